@@ -18,6 +18,10 @@ func (c *WebserverConfig) verify() error {
 	if c.Listen.Read() == "" {
 		return fmt.Errorf("webserver.listen cannot be empty")
 	}
+	if c.ApiDisabled.Read() && !c.DashboardDisabled.Read() {
+		// The dashboard is served through the API: the process refuses to start with this combination.
+		return fmt.Errorf("webserver.api_disabled requires webserver.dashboard_disabled")
+	}
 	return nil
 }
 
